@@ -75,3 +75,55 @@ class TAttach(Task):
 
     def execute(self):
         pass
+
+
+# ---- the job identifier changing after the paths were generated (mark_output), a failed first submit ------
+class PModel(Config):
+    n: Param[int]
+
+
+class TLearn(Task):
+    """returns dep(self.model): given the output of another TLearn, marking overwrites the model's task link"""
+    model: Param[PModel]
+    epochs: Param[int]
+    log: Meta[Path] = field(default_factory=PathGenerator("log.txt"))
+
+    def task_outputs(self, dep):
+        return dep(self.model)
+
+    def execute(self):
+        pass
+
+
+class PLoader(LightweightTask):
+    model: Param[PModel]
+    cache: Annotated[Path, pathgenerator("cache.bin")]
+
+    def execute(self):
+        pass
+
+
+class TLearnSub(Task):
+    """no generated parameter of its own; a pre-task / init task holds the model it returns"""
+    sub: Param[PLeaf]
+    model: Param[PModel]
+
+    def task_outputs(self, dep):
+        return dep(self.model)
+
+    def execute(self):
+        pass
+
+
+def _named(context, config):
+    return config.name + ".txt"
+
+
+class TNamed(Task):
+    """the generator raises while name is None: the first submit fails after `sub` was sealed"""
+    sub: Param[PLeaf]
+    name: Param[Optional[str]] = None
+    out: Annotated[Path, pathgenerator(_named)]
+
+    def execute(self):
+        pass
